@@ -109,9 +109,12 @@ def run_ohe(rec, sh, tier):
             rec.violation("characters:wrong_value_allow_N", case, expected=sN, observed=back)
     # characters outside alphabet and ignore must be rejected, at every position
     outside = [c for c in "ACGTNacgtn-*.Bz0 ~" if c not in symbols]
+    # every non-ASCII character of the Latin / Greek / Cyrillic blocks plus a few three- and four-byte ones (their UTF-8 bytes are
+    # not characters of the alphabet either, whatever they alias to modulo 128 or 256)
+    outside += [chr(k) for k in range(128, 0x500) if chr(k).isprintable()] + list("\u20ac\u2192\uff21\uff2e\U0001d400")
     base = (al * 4)[:3]
     for ch in outside:
-        for pos in range(4):
+        for pos in (range(4) if ord(ch) < 128 else (0, 3)):
             s = base[:pos] + ch + base[pos:]
             st, x = call(one_hot_encode, s, alphabet=alist, ignore=iglist)
             rec.case(1, 1)
@@ -274,7 +277,21 @@ def run_long(rec, tier, seed):
             if st != "ok" or st2 != "ok" or len(un) != 1 or tuple(un[0].shape) != (2, covered) or not torch.equal(un[0], xv[:, :covered]):
                 rec.violation("unchunk:wrong_value_long", dict(case, size=size, overlap=overlap))
         rec.observe(L, int(exp.sum()))
-    rec.sample(dict(kind="long", lengths=lens))
+    # beyond 2^24 positions (float32 no longer holds every integer): one sequence, 16762 chunks of 1024 overlapping by 23
+    size, overlap = 1024, 23
+    step = size - overlap
+    for L in ((1 << 24) + step * 2 + 3 + size, step * 16761 + size):
+        xv = torch.arange(L, dtype=torch.int32)[None, :]
+        st, ch = call(chunk, [xv], size=size, overlap=overlap)
+        st2, un = call(unchunk, ch, lengths=[L], overlap=overlap) if st == "ok" else ("raise", None)
+        nch = (L - size) // step + 1
+        covered = size + (nch - 1) * step
+        rec.case(1, 1)
+        if st != "ok" or st2 != "ok" or len(un) != 1 or tuple(un[0].shape) != (1, covered) or not torch.equal(un[0], xv[:, :covered]):
+            rec.violation("unchunk:wrong_value_long", dict(fn="long", L=L, size=size, overlap=overlap, pattern="arange"),
+                          expected=[1, covered], observed=list(un[0].shape) if st == "ok" and st2 == "ok" and len(un) else str(un)[:200])
+        del xv, ch, un
+    rec.sample(dict(kind="long", lengths=lens + ["2^24 + ... (chunk/unchunk only)"]))
 
 
 def run_history(rec, tier, seed):
